@@ -345,6 +345,8 @@ func (a *AggregatePlan) Batch(ctx *ExecuteCtx) ([][]Column, error) {
 		}
 		if nrows <= restSkips {
 			a.skips += nrows
+			// Whole batch is skipped, do not leak it into the result
+			rows = nil
 		} else {
 			a.skips += restSkips
 			rows = rows[restSkips:]
